@@ -1,6 +1,8 @@
 module verif/harness
 
-go 1.22.1
+go 1.23
+
+toolchain go1.23.5
 
 require (
 	github.com/relab/gorums v0.0.0
@@ -13,6 +15,7 @@ require (
 require (
 	github.com/golang/protobuf v1.5.4 // indirect
 	golang.org/x/net v0.22.0 // indirect
+	golang.org/x/sync v0.6.0 // indirect
 	golang.org/x/sys v0.18.0 // indirect
 	golang.org/x/text v0.14.0 // indirect
 )
